@@ -14,6 +14,14 @@ CHECKS = {
          "Thousands of generated token lives (instantiate + up to 40/120 calls of every execute variant, edge-biased and state-relative u128 amounts, failing calls included); after every step AllAccounts is paged to exhaustion and the sum of Balance answers is compared with TokenInfo.total_supply, and every step's balance/supply delta is compared with the exact expected delta. Right level: the property is an invariant over histories that is cheap to evaluate exhaustively per step.", "DESIGN.md section 4 / C01"),
  "C02": ("cw20", "stateful property-based testing, history invariants + grant/draw ledger over all (owner,spender) pairs",
          "Generated histories of transfers, sends, burns, allowance changes with all expiry kinds placed around the moving block, draws and the decrease-vs-draw race in both orders; clauses (a)-(e) are evaluated from Balance/Allowance observations of all actors and pairs before and after every call, plus a cumulative granted/drawn ledger and structural comparison of the Cw20ReceiveMsg.", "DESIGN.md section 4 / C02"),
+ "C03": ("cw3", "stateful property-based testing on a cw-multi-test chain; exact-arithmetic reference model recomputes every proposal's outcome from its paged ballots after every call",
+         "Generated histories on cw3-fixed-multisig and cw3-flex-multisig (static cw4-group): proposals with every expiry shape, all four vote options by members / zero-weight members / outsiders, execute, close, block and time advances onto expiry boundaries; after every op each proposal's status from Proposal / ListProposals / ReverseProposals must equal Passed <=> (yes>0 and rule certainly satisfied / satisfied at expiry), Rejected only if expired-and-failed or cannot pass, Open only before expiry, Executed iff an Execute succeeded; Execute and Close admission is compared with the model status.", "DESIGN.md section 4 / C03"),
+ "C05": ("cw3", "stateful property-based testing with fault injection (failing dispatch, re-entrant messages) on a cw-multi-test chain; rollback-aware recorder log + lifecycle automaton",
+         "Generated histories with proposals carrying Recorder messages (failing while a fault switch is on), bank sends the multisig can or cannot afford and re-entrant Execute/Vote/Close calls into the multisig, executor settings None/Member/Only, retries after failed dispatch: the recorder contract's log and real bank balances must show every executed proposal's messages exactly once, in order, only from a successful Execute whose pre-call status was Passed and whose caller is authorised; statuses only move forward; ids sequential; content, threshold and expiry immutable and bounded by the maximum voting period; deliverable Passed proposals must execute; Close never dispatches.", "DESIGN.md section 4 / C05"),
+ "C06": ("cw3", "stateful property-based testing against a per-block membership reference model (schedules = transaction order within and across blocks)",
+         "fixed: generated voter lists with repeats and zero weights; flex: cw4-group updates (add / re-weight / remove / re-add) placed before, inside and after the proposal's block, with the multisig optionally registered as hook; oracle: ballots come only from successful votes of snapshot members with weight >= 1, once, before expiry, with the snapshot weight; total_weight == snapshot sum; ballots never outweigh it; group changes never alter existing proposals. The known same-block divergence (F5) is tolerated only under its exact signature.", "DESIGN.md section 4 / C06"),
+ "C15": ("cw3", "stateful property-based testing with a deposit ledger over real bank / cw20 balances and an end-of-history recovery sweep",
+         "cw3-flex with native or cw20 (real cw20-base) deposits, refunds on/off, all payment shapes (exact, short, excess, none, wrong denom, extra coin; cw20 allowance exact/short/excess/none): every call's real balance deltas of all actors and the multisig must equal the ledger's expectation (deposit taken exactly once on a successful propose, returned exactly once to the proposer by Execute or - if enabled - Close, never otherwise); at the end the chain is moved past every expiry and Close/Execute are attempted on every proposal, after which no failed proposal may still hold its deposit when refunds are enabled (F6 tolerated under its exact signature only).", "DESIGN.md section 4 / C15"),
  "C04": ("cw3lib", "property-based testing of the decision functions against an exact-arithmetic reference model, with exhaustive enumeration of vote completions for totals <= 12",
          "Millions of constructed proposals (all three threshold kinds incl. percentages a hair above rationals j/total with 9 and 18 decimals, totals from 0 to u64::MAX, tallies placed at yes/no/quorum decision boundaries, before / exactly at / after expiry): after expiry is_passed is compared with the documented formula in exact u128 arithmetic (<= 9 decimals exactly; 18 decimals within one vote and never stricter), before expiry Passed/Rejected are checked against every completion of the outstanding votes (enumerated for totals <= 12, closed-form extremal completions cross-checked against the enumeration above), never both, never Passed with zero Yes.", "DESIGN.md section 4 / C04"),
  "C13": ("cw20", "stateful property-based testing, minter/cap invariants after every call",
@@ -23,6 +31,7 @@ CHECKS = {
 }
 
 FAMILIES = {
+ "cw3": ("harness/fam_cw3 (module multisig)", "proptest op-sequence generator + interpreter over cw3-fixed-multisig / cw3-flex-multisig + cw4-group + cw20-base + recorder contract on cw-multi-test"),
  "cw3lib": ("harness/fam_cw3 (module tally)", "proptest generator of (threshold, total, tally, expiry) + exact u128 model + completion enumeration over cw3::Proposal"),
  "cw20": ("harness/fam_cw20", "proptest op-sequence generator + interpreter over cw20-base entry points (direct driver)"),
 }
